@@ -3,7 +3,7 @@
 #                                          into the scratch module $VERIF_SCRATCH/mod (module "exp")
 #   vg_driver <main.go.txt> <out-binary>   build a driver main against it
 # Option sets (DESIGN.md §3.2): p0 TL1 only; p1 TL2 for everything; p2 = p1 + []byte variants; p5 = p1 without
-# length sanity checks. All with random-filling code.
+# length sanity checks. All with random-filling code. r0..r3: option sets of the registry universe (VG_UNIVERSE=reg).
 VG="$VERIF_ROOT/gen"
 
 vg_cfg_flags() {
@@ -12,6 +12,11 @@ vg_cfg_flags() {
     p1) echo "--tl2WhiteList=* --generateRandomCode" ;;
     p2) echo "--tl2WhiteList=* --generateRandomCode --generateByteVersions=*" ;;
     p5) echo "--tl2WhiteList=* --generateRandomCode --checkLengthSanity=false" ;;
+    # registry/function universe (VG_UNIVERSE=reg, gen/uni/universe_reg.go): TL2 whitelists covering strict subsets
+    r0) echo "--generateRandomCode" ;;
+    r1) echo "--tl2WhiteList=w. --generateRandomCode" ;;
+    r2) echo "--tl2WhiteList=w.leaf,w.fRes,u.AloneUn,plain --generateRandomCode" ;;
+    r3) echo "--tl2WhiteList=* --generateRandomCode --generateByteVersions=*" ;;
     *) echo "unknown cfg $1" >&2; return 2 ;;
   esac
 }
@@ -23,7 +28,8 @@ vg_prepare() {
   vb_overlay_begin; vb_overlay_end
   vb_build_bin cmd/tl2gen "$VERIF_SCRATCH/tl2gen" || return 2
   (cd "$VG" && go build -o "$VERIF_SCRATCH/unigen" ./cmd/unigen) || { echo "HARNESS-ERROR: unigen build failed" >&2; return 2; }
-  "$VERIF_SCRATCH/unigen" -level "$level" -out "$VERIF_SCRATCH/schema/u.tl" >/dev/null || return 2
+  # VG_UNIVERSE selects another universe builder of gen/uni (default: uni.Universe(level)); "reg" = uni.UniverseReg()
+  "$VERIF_SCRATCH/unigen" -level "$level" -universe "${VG_UNIVERSE:-}" -out "$VERIF_SCRATCH/schema/u.tl" >/dev/null || return 2
   cat > "$M/go.mod" <<EOF
 module exp
 
@@ -49,7 +55,7 @@ EOF
     local bytesimp=""
     [ -d "$M/gen_$cfg/factory_bytes" ] && bytesimp="_ \"exp/gen_$cfg/factory_bytes\""
     local tmpl="$VG/glue.go.tmpl"
-    [ "$cfg" = p0 ] && tmpl="$VG/glue_notl2.go.tmpl"
+    case "$cfg" in p0|r0) tmpl="$VG/glue_notl2.go.tmpl" ;; esac
     sed -e "s/CFG/$cfg/g" -e "s#BYTESIMPORT#$bytesimp#" "$tmpl" > "$M/glue_$cfg/glue.go"
     imports="$imports	_ \"exp/glue_$cfg\"
 "
